@@ -12,19 +12,27 @@ EXTENDS Integers, Sequences, Json, IOUtils, TLC, TLCExt
 Tr == ndJsonDeserialize(IOEnv.TRACE)
 VARIABLES l, pend, pool, ncpu,
           starts, exits,     \* pool threads that began _dispatch_worker_thread / gave their budget unit back at exit
+          pk,                \* per thread: where it stands inside _dispatch_root_queue_poke_slow's request protocol (below)
           owe                \* <<thread, queue>> pairs: the thread published a next item as the queue's head in
                              \* _dispatch_root_queue_drain_one and has not yet requested a thread for it (Root.tla: DStoreNext -> poke)
-tvars == <<l, pend, pool, ncpu, starts, exits, owe>>
+tvars == <<l, pend, pool, ncpu, starts, exits, pk, owe>>
 Rec == Tr[l]
-TInit == l = 2 /\ pend = 0 /\ pool = 0 /\ ncpu = 0 /\ starts = 0 /\ exits = 0 /\ owe = {} /\ TLCSet(1, 0)
+PK0 == [st |-> "out", rem |-> 0]
+PkOf(t) == IF t \in DOMAIN pk THEN pk[t] ELSE PK0      \* threads appear as the pool grows
+TInit == l = 2 /\ pend = 0 /\ pool = 0 /\ ncpu = 0 /\ starts = 0 /\ exits = 0 /\ owe = {} /\ pk = <<>> /\ TLCSet(1, 0)
 Consume == l' = l + 1
 TReset == /\ l <= Len(Tr) /\ Rec.e = "Reset" /\ Consume /\ pend' = Rec.pending /\ pool' = Rec.pool /\ ncpu' = Rec.ncpu
+          /\ pk' = <<>>
           /\ starts' = Rec.ncpu - Rec.pool /\ exits' = 0 /\ owe' = {}      \* threads alive when recording starts hold the missing budget
 \* after every pool thread had time to hit its park timeout: all have exited and returned their unit
 TIdle == /\ l <= Len(Tr) /\ Rec.e = "IdleQuiesce" /\ Consume
          /\ exits = starts /\ pool = ncpu /\ pend = 0
-         /\ UNCHANGED <<pend, pool, ncpu, starts, exits, owe>>
-TOther == /\ l <= Len(Tr) /\ Rec.e \notin {"Reset", "Rq", "Rl", "IdleQuiesce"} /\ Consume /\ UNCHANGED <<pend, pool, ncpu, starts, exits, owe>>
+         /\ \A t \in DOMAIN pk : pk[t].st = "out"
+         /\ UNCHANGED <<pend, pool, ncpu, starts, exits, pk, owe>>
+\* an API event of a thread (item start / end) cannot come from inside poke_slow
+TOther == /\ l <= Len(Tr) /\ Rec.e \notin {"Reset", "Rq", "Rl", "IdleQuiesce"} /\ Consume
+          /\ ("t" \in DOMAIN Rec /\ Rec.e \in {"Start", "End"} => PkOf(Rec.t).st = "out")
+          /\ UNCHANGED <<pend, pool, ncpu, starts, exits, pk, owe>>
 \* item list of a root queue (q = which root queue): the part of the MEDIATOR protocol that keeps the queue served:
 \* after popping an item while another one is (or just became) queued behind it, the worker stores that next item as
 \* the head and MUST poke the queue (_dispatch_root_queue_poke starts with the ordered load of the tail in
@@ -38,8 +46,29 @@ TRl == /\ l <= Len(Tr) /\ Rec.e = "Rl" /\ Consume
             [] Rec.f = "_dispatch_root_queue_drain_one" /\ Rec.w = "head" /\ Rec.op = "xchg" ->
                  k \notin owe /\ owe' = owe        \* back for the next item: the request must have been made
             [] OTHER -> owe' = owe
-       /\ UNCHANGED <<pend, pool, ncpu, starts, exits>>
+       /\ PkOf(Rec.t).st = "out"          \* list operations are not part of poke_slow: it must have finished its protocol
+       /\ UNCHANGED <<pend, pool, ncpu, starts, exits, pk>>
 MAXTIDS == 255
+(* The request protocol of _dispatch_root_queue_poke_slow (pthread pool), per calling thread:
+     out --(pending: cmpxchg 0 -> n ok | add n)--> need_load(rem = n)
+     need_load --(pool: load)--> decide(rem)
+     decide(rem) --(pending: sub d, d <= rem)--> IF rem = d THEN out ("pool is full": the reservation went back) ELSE take(rem - d)
+     decide(rem) / take(rem) --(pool: cmpxchg ok, old - new = rem)--> out (threads are created for rem)
+     decide(rem) / take(rem) --(pool: cmpxchg failed)--> decide(rem)
+   Leaving the function in any other state keeps units in dgq_pending that no thread will ever consume: every later
+   request fails the 0 -> n gate and the queue is stranded once the parked workers are gone (seed C01-4). *)
+PkStep(t) ==
+  LET s == PkOf(t) f == Rec.f w == Rec.w op == Rec.op IN
+  IF f # "_dispatch_root_queue_poke_slow" THEN (IF s.st = "out" THEN s ELSE [st |-> "BAD", rem |-> 0])
+  ELSE CASE s.st = "out" /\ w = "pending" /\ op = "cmpxchg" -> IF Rec.ok = 1 THEN [st |-> "need_load", rem |-> Rec.new] ELSE s
+         [] s.st = "out" /\ w = "pending" /\ op = "add" -> [st |-> "need_load", rem |-> Rec.new - Rec.old]
+         [] s.st = "need_load" /\ w = "pool" /\ op = "load" -> [st |-> "decide", rem |-> s.rem]
+         [] s.st = "decide" /\ w = "pending" /\ op = "sub" ->
+              LET d == Rec.old - Rec.new IN
+              IF d = s.rem THEN PK0 ELSE IF d < s.rem /\ d > 0 THEN [st |-> "take", rem |-> s.rem - d] ELSE [st |-> "BAD", rem |-> 0]
+         [] s.st \in {"decide", "take"} /\ w = "pool" /\ op = "cmpxchg" ->
+              IF Rec.ok = 1 THEN (IF Rec.old - Rec.new = s.rem THEN PK0 ELSE [st |-> "BAD", rem |-> 0]) ELSE [st |-> "decide", rem |-> s.rem]
+         [] OTHER -> [st |-> "BAD", rem |-> 0]
 Cur == IF Rec.w = "pending" THEN pend ELSE pool
 Legal ==
   LET f == Rec.f op == Rec.op o == Rec.old n == Rec.new IN
@@ -59,6 +88,7 @@ TRq == /\ l <= Len(Tr) /\ Rec.e = "Rq" /\ Consume
        /\ ncpu' = ncpu
        /\ starts' = IF Rec.f = "_dispatch_worker_thread" /\ Rec.w = "pending" /\ Rec.op = "sub" THEN starts + 1 ELSE starts
        /\ exits' = IF Rec.f = "_dispatch_worker_thread" /\ Rec.w = "pool" /\ Rec.op = "add" THEN exits + 1 ELSE exits
+       /\ PkStep(Rec.t).st # "BAD" /\ pk' = (Rec.t :> PkStep(Rec.t)) @@ pk
        /\ owe' = owe
 TNext == TReset \/ TOther \/ TIdle \/ TRq \/ TRl
 TSpec == TInit /\ [][TNext]_tvars
